@@ -346,6 +346,11 @@ struct MinterInfo {
     ntok: Option<u32>,
     /// the account the harness made admin (creator) — known independently of any query
     admin: u64,
+    /// the factory this minter was created through (one factory per case)
+    factory: String,
+    /// GHOST: the factory's `max_per_address_limit` in force, from what the harness itself sent (creation parameter, then every
+    /// successful governance update) — never read back from the factory
+    max_in_force: u64,
 }
 
 /// What the harness read from the whitelist before a mint (the model's `Oracle`) plus bookkeeping for the monitors.
@@ -685,6 +690,11 @@ impl S {
         let name = m.kind.name();
         let op = line.split_whitespace().next().unwrap_or("");
         let by_admin = kv_u64(line, "sender") == Some(m.admin);
+        if op == "setlim" && (a.0 == 0 || a.0 > m.max_in_force) {
+            let mx = m.max_in_force;
+            self.flag(format!("{name}/setlim/outside-factory-maximum"), format!("UpdatePerAddressLimit moved the limit in force to {}, outside 1..={mx}, the factory maximum in force at that moment (as set by the harness: creation parameter / last successful governance update)", a.0));
+            return;
+        }
         let allowed = match op {
             "setlim" => by_admin && a.1 == b.1 && kv_u64(line, "n") == Some(a.0),
             "setwl" => by_admin && a.0 == b.0 && kv_u64(line, "wl").and_then(|k| self.wls.get(&k)).map(|i| Some(i.addr.clone()) == a.1).unwrap_or(false),
@@ -827,8 +837,10 @@ impl S {
         p.min_mint_price = (0, MIN_PRICE);
         // open edition without a token cap is only accepted with a non-zero airdrop price
         p.airdrop_mint_price = (0, if ntok.is_none() { 20_000_000 } else { 0 });
+        let mut factory = String::new();
         let res = (|| -> Result<(String, String), String> {
             let f = w.new_factory(kind.factory(), &p)?;
+            factory = f.clone();
             let mut a = w.default_create(kind, &p);
             a.creator = admin;
             a.num_tokens = ntok;
@@ -842,7 +854,7 @@ impl S {
         })();
         let ok = res.is_ok();
         if let Ok((m, c)) = res {
-            self.minter = Some(MinterInfo { addr: m, coll: c, kind, ntok, admin });
+            self.minter = Some(MinterInfo { addr: m, coll: c, kind, ntok, admin, factory, max_in_force: maxpal as u64 });
         }
         // `pre=1`: the harness only sends creation parameters it believes valid (apart from the whitelist pairing)
         (format!("{line} wlact={} pre=1 res={}", wlact as u8, ok as u8), self.out(ok, "-", "1"))
@@ -1089,6 +1101,22 @@ impl S {
         (format!("{line} res={}", ok as u8), self.out(ok, "-", "-"))
     }
 
+    /// governance: factory sudo `UpdateParams { extension: { max_per_address_limit } }` — the maximum `UpdatePerAddressLimit`
+    /// reads LIVE from the factory; nothing on the minter may move (model: `XOp.govern`)
+    fn do_govern(&mut self, line: &str) -> (String, String) {
+        let n = kv_u64(line, "max").unwrap_or(1);
+        let Some(m) = &self.minter else { return (format!("{line} res=0"), self.out(false, "-", "-")) };
+        let factory = m.factory.clone();
+        let r = self.world().sudo(&factory, &json!({"update_params": {"extension": {"max_per_address_limit": n}}}));
+        let ok = r.is_ok();
+        if ok {
+            if let Some(m) = self.minter.as_mut() {
+                m.max_in_force = n;
+            }
+        }
+        (format!("{line} res={}", ok as u8), self.out(ok, "-", "-"))
+    }
+
     /// `migrate` to the code the minter already runs (the only code the harness has): counters must survive
     fn do_migrate(&mut self, line: &str) -> (String, String) {
         let sender = kv_u64(line, "sender").unwrap_or(10);
@@ -1201,6 +1229,7 @@ impl Sut for S {
             "purge" => self.do_purge(line),
             "other" => self.do_other(line),
             "migrate" => self.do_migrate(line),
+            "govern" => self.do_govern(line),
             _ => (line.to_string(), "bad-op".into()),
         };
         self.check_cfg_moved(line, cfg_before);
@@ -1467,6 +1496,9 @@ fn scenario(ses: &mut Session, sut: &mut S, rng: &mut Rng, idx: u64, table: &BTr
             gen_wlop(ses, sut, rng, &plan);
         } else if r < 96 {
             gen_other(ses, sut, rng, mk);
+        } else if r < 97 && rng.chance(1, 2) {
+            let out = ses.step(sut, &format!("govern max={}", rng.range(0, 6)));
+            ses.mark(format!("govern:{}:{}", mk.name(), &out[..2]));
         } else if r < 97 {
             let sender = if rng.chance(2, 3) { ADMIN } else { *rng.pick(&BUYERS) };
             let out = ses.step(sut, &format!("migrate sender={sender}"));
@@ -1914,6 +1946,25 @@ fn scenario_edges(ses: &mut Session, sut: &mut S, rng: &mut Rng, idx: u64, table
         ses.mark(format!("req:setlim-ok:{name}"));
     }
     burst(ses, sut, rng, &plan, &order, 2);
+    // E'. governance moves the factory maximum between two UpdatePerAddressLimit calls (it is read live):
+    //     lower it 5 -> 2: the old maximum (5) and the value accepted a moment ago (3) are refused, the limit in force stays 3;
+    //     raise it 2 -> 3: 3 is accepted again
+    let g1 = ses.step(sut, "govern max=2");
+    let r5 = ses.step(sut, &format!("setlim sender={ADMIN} n=5 funds=0"));
+    let r3 = ses.step(sut, &format!("setlim sender={ADMIN} n=3 funds=0"));
+    let kept = sut.limit_in_force() == 3;
+    burst(ses, sut, rng, &plan, &order, 1);
+    let a2 = ses.step(sut, &format!("setlim sender={ADMIN} n=2 funds=0"));
+    if o.starts_with("ok") && g1.starts_with("ok") && r5.starts_with("err") && r3.starts_with("err") && kept && a2.starts_with("ok") {
+        ses.mark(format!("req:govern:lowered-old-max-refused:{name}"));
+    }
+    let g2 = ses.step(sut, "govern max=3");
+    let a3 = ses.step(sut, &format!("setlim sender={ADMIN} n=3 funds=0"));
+    if r3.starts_with("err") && g2.starts_with("ok") && a3.starts_with("ok") {
+        ses.mark(format!("req:govern:raised-then-set:{name}"));
+    }
+    burst(ses, sut, rng, &plan, &order, 1);
+    ses.step(sut, "govern max=5");
     for (s, n, f) in [(BUYERS[0], 3u64, 0u8), (ADMIN, 0, 0), (ADMIN, 6, 0), (ADMIN, 2, 1)] {
         let o = ses.step(sut, &format!("setlim sender={s} n={n} funds={f}"));
         ses.mark(format!("edges:setlim-bad:{name}:{}:{n}:{f}:{}", s == ADMIN, &o[..2]));
@@ -2217,7 +2268,7 @@ fn main() {
     // 4. coverage floor: without these the run would be vacuous (for every seed, in every tier)
     for mk in &ALL_MINTERS[..C03_MINTERS] {
         let name = mk.name();
-        for c in ["create-ok", "pub:accept-last", "pub:reject-over", "setlim-ok", "airdrop-ok", "purge-ok", "after-purge-refused", "surface-poked", "migrate-ok", "swap"] {
+        for c in ["create-ok", "pub:accept-last", "pub:reject-over", "setlim-ok", "airdrop-ok", "purge-ok", "after-purge-refused", "surface-poked", "migrate-ok", "swap", "govern:lowered-old-max-refused", "govern:raised-then-set"] {
             ses.require(format!("req:{c}:{name}"));
         }
         for wk in ALL_WL {
